@@ -70,8 +70,11 @@ package ack
 //@   ensures ack_id(pkt) && old(#tab)[key_of(prefix, pkt_id(pkt))] && unbox(old(#tabv)[key_of(prefix, pkt_id(pkt))], message).state != pkt.Type()
 //@            ==> err != nil && #tab == old(#tab) && #tmo == old(#tmo) && #cbCalls == old(#cbCalls)
 //@   ensures ack_id(pkt) && old(#tab)[key_of(prefix, pkt_id(pkt))] && unbox(old(#tabv)[key_of(prefix, pkt_id(pkt))], message).state == pkt.Type()
-//@            ==> err == nil && #cbCalls == old(#cbCalls) + 1
+//@            ==> (err == nil && #cbCalls == old(#cbCalls) + 1) || (#raced && err != nil && #cbCalls == old(#cbCalls))
+// C20: when an expiry sweep has taken the entry between the lookup and the removal, the callback belongs to the sweep:
+// Ack runs it only if its own Delete removed the entry
 //@ callsite (*queue).Ack -> message.callback(expired bool, stored packet.Packet, received packet.Packet)
+//@   requires [C20] #lastDelOk
 //@   requires !expired && received == pkt && stored == unbox(old(#tabv)[key_of(prefix, pkt_id(pkt))], message).pkt
 //@   requires old(#tab)[key_of(prefix, pkt_id(pkt))] && unbox(old(#tabv)[key_of(prefix, pkt_id(pkt))], message).state == pkt.Type()
 //@   requires forall x Iface :: #tab[x] <==> (old(#tab)[x] && x != key_of(prefix, pkt_id(pkt)))
@@ -108,4 +111,5 @@ package ack
 //@ loop (*queue).Expire#1
 //@   invariant -1 <= rangeindex && rangeindex < 1152921504606846976 && q != nil && q.msg != nil && q.timeouts != nil
 //@ callsite (*queue).Expire -> message.callback(expired bool, stored packet.Packet, received packet.Packet)
+//@   requires [C20] #lastDelOk
 //@   requires expired && received == nil && !#tab[asiface(key)]
